@@ -124,14 +124,14 @@ CLAIMED = {
         "each lead to Spec.selectionOutcome, hence to the same outcome), selection_merges (include = config tests U flag tests, exclude likewise), settings_local / settings_replace / settings_local_table / no_block_means_defaults "
         "(a block for key k replaces k's default wholesale and changes no other key, for arbitrary configs), generator_neutral + generator_neutral_run + gen_defaults_plain (decide +kernel over the tables regenerated from /repo: "
         "the generator's document gives every plugin its default and an empty selection; the whole run equals the run without -c), ini_fills_defaults / precedence_cli_tests / precedence_cli_skips / precedence_rules "
-        "(INI = the command line that spells the same options; a given CLI value wins; the 'CLI value equal to default loses to INI' corner), reject_table_partial (unreadable | unparsable | non-mapping => exit 2, under the guard "
-        "'parser result is a str/list not mentioning profiles; TOML is UTF-8 and tool is a table'), reject_unknown_profile, reject_contradictory, and six kernel-checked NEG_ witnesses of the three known findings "
-        "(empty/scalar/'profiles'-string config, TOML tool not a table, undecodable TOML, INI level) which the harness replays on the real code. The fixed-code variant (Bandit.ConfigLoad.Fixed, Bandit/Proofs/C13Fixed.lean) proves the "
-        "rejection table without guard. Tie to /repo on every run: Gen.Defaults/Registry/Constants regenerated; ~890 (quick) / ~6000 (thorough) runs of bandit.cli.main.main() and bandit-config-generator: one abstract "
+        "(INI = the command line that spells the same options; a given CLI value wins; the 'CLI value equal to default loses to INI' corner), reject_table (unreadable | unparsable incl. non-UTF-8 | non-mapping => diagnostic + exit 2 for EVERY "
+        "parser result; full strength since the /repo fixes d27fc84 and 259b80f, which the model follows), reject_unknown_profile, reject_contradictory, and former_witnesses_rejected / ini_level_as_cli: kernel-checked regression instances of the three repaired defects "
+        "(empty/scalar/'profiles'-string config, TOML tool not a table, undecodable TOML, INI level) which the harness replays on the real code; the three findings are recorded as fixed in known_findings.json. "
+        "Tie to /repo on every run: Gen.Defaults/Registry/Constants regenerated; ~920 (quick) / ~6000 (thorough) runs of bandit.cli.main.main() and bandit-config-generator: one abstract "
         "config through YAML/TOML/INI(--ini and auto-discovered)/CLI/generator/legacy-profile carriers and split over carriers, exclude patterns on a tree, per-plugin blocks (tmp_dirs, shell lists, key-size thresholds, "
         "check_typed_exception, assert skips), malformed stream (shape tables + seeded non-mappings; missing/dir/unreadable via patched open), each compared with the compiled Lean model (outcome kind, crash class, scanned files, findings) "
         "and judged by spec oracles on the implementation's own output (pairwise carrier equality, locality, generator neutrality, exit 2 + diagnostic + no traceback). Proof is the right level because the property quantifies over all "
-        "configurations; the finite shape tables are enumerated exhaustively. NOTE: the three defects named above were repaired in /repo (fix: commits d27fc84, 259b80f, da9ae97); the correspondence now runs against the model of the repaired code (lean/Bandit/ConfigLoadFixed.lean, theorems Fixed.reject_table (no guard), Fixed.former_witnesses_rejected, Fixed.ini_level_as_cli audited with C13); the NEG_ witnesses document the pinned commit."),
+        "configurations; the finite shape tables are enumerated exhaustively."),
   technique="Lean 4 proof over hand model of config/CLI plumbing + carrier-equivalence correspondence through the real CLI (translator for defaults/registry)",
   design="DESIGN.md section 7 C13"),
  "C11": dict(
@@ -155,6 +155,41 @@ CLAIMED = {
         "all 4096) in three spellings, a user temp-dir configuration, the quoted literal in the message, and 4000 (thorough 20000) generated identifiers through RE_CANDIDATES vs the documented regex vs the Lean matcher."),
   technique="Lean 4 proof (bit-level table for all naturals, decision lemmas) + differential correspondence",
   design="DESIGN.md section 7 C16"),
+ "C03": dict(
+  text=("Lean theorems over a hand-written model of bandit/cli/main.py main() (argparse post-processing, the --severity-level/--confidence-level if-chains, "
+        "the INI level/confidence merge through _log_option_source, the ladder of error exits, RANKING[args.severity - 1], the exit decision), Issue.filter and "
+        "BanditManager.filter_results/results_count (lean/Bandit/Cli.lean), instantiated with tables regenerated from /repo on every run (RANKING, both if-chains, "
+        "choices=, the defaults of -l/-i, the index offset, formatter names, baseline-capable formatters, whether the INI value is int()-converted): "
+        "exit_one_iff / exit_one_iff_exists / exit_zero_otherwise (status 1 iff a finding meets both thresholds and no --exit-zero, else 0), exit_zero_flag + "
+        "exit_zero_never_one (for every table value, invocation and world), reported_is_filter (report = filter (sev >= tS and conf >= tC) of the unfiltered findings, order and "
+        "multiplicity kept), reported_subset_unfiltered (arbitrary tables), spelling_equiv + spelling_equiv_main (k flags and the name all/low/medium/high give the same outcome "
+        "of main() for every other option and world), filter_monotone, error_exit_is_two / parse_error_exit_is_two / template_error_exit_is_two / exit_two_only_errors / "
+        "error_exit_table (every listed usage/configuration error ends in a diagnostic + exit 2, never a traceback, and exit 2 occurs only for those), NEG_count_five + "
+        "count_ge_four_traceback (observation: -llll => IndexError; outside the spellings the property lists), NEG_ini_level + ini_level_always_traceback (witness and full region of "
+        "the defect fixed by /repo da9ae97: a raw INI level/confidence string => TypeError traceback; conditional on the generated flag iniAsInt = false, vacuous now) and "
+        "FIXED_ini_level_is_count (with the conversion in place an INI level k behaves like k-1 flags; conditional on iniAsInt = true). "
+        "Tie to /repo on every run: bandit.cli.main.main() is driven in-process on generated programs (8 natural (severity, confidence) pairs; all 16 pairs incl. UNDEFINED and HIGH/LOW "
+        "by appending findings behind BanditManager.run_tests) exhaustively over 4x4 thresholds x count/name spellings x 10 report formats (json yaml csv xml html sarif txt screen custom, "
+        "custom with default template) x --exit-zero x {-,-q,-v}; every report is parsed back and compared as a multiset of (file, id, severity, confidence, line) with a spec filter "
+        "written from the property text over BanditManager.results, exit status compared with the spec and with the compiled Lean model, any non-SystemExit exception is a traceback; "
+        "37 error invocations x decorations must exit 2 with an ERROR/WARNING/usage line. Proof is the right level: the statement is a universally quantified relation between the "
+        "finding list, the option vector and (report, status); the option space is finite and is also enumerated against the real code."),
+  technique="Lean 4 proof over hand model + generated tables + exhaustive option-space correspondence through main()",
+  design="DESIGN.md section 7 C03"),
+ "C18": dict(
+  text=("Lean theorems (lean/Props/C18.lean) over the registry tables regenerated on every run from /repo (entry points of the current setup.cfg as loaded by "
+        "extension_loader, Issue(...) sites and @test_id decorators from the plugin source ASTs, doc/source listings) and over the frozen published tables (published/*.json): "
+        "by decide +kernel over the whole tables — ids_wellformed, ids_unique, names_unique, names_are_not_ids, nosec_name_id_interchangeable (the nosec comment parser yields the same ID "
+        "for '# nosec <name>' and '# nosec <ID>' for every entry), profile_name_id_interchangeable, ranks_valid, cwe_set, doc_url_model_agrees, doc_page_exists_partial + NEG_doc_page_missing (B508/B509), "
+        "blacklist_doc_page_exists, declared_iff_present, published_still_enforced, published_call/import_first_match, tables_coherent, cli_select_by_id + NEG_cli_select_by_name, "
+        "NEG_get_url_mutates_names; and for ARBITRARY registries — unique_implies_bijection, unique_implies_interchangeable, unique_implies_resolve_injective, unique_implies_profile_interchangeable, "
+        "cli_select_by_name_partial (a token that is not an ID selects/skips nothing), published_call_reported (C01's call_reported instantiated: a published qualified name called anywhere in any program "
+        "is reported with the published ID and at least the published severity). Tie to /repo on every run: the running registry is compared with the generated instance; every Spec clause is evaluated on the "
+        "running registry twice (Python oracle using bandit's own lookups vs the Lean definitions through the driver); one trigger program per registered ID, one per published (id, qualified name, node kind), "
+        "and every entry x {by ID, by name} x {nosec, legacy profile, -t, -s} run through real bandit and compared with the Lean models (resolve, Nosec.parse, convertNames, getFilter, docUrl, get_url state). "
+        "Proof is the right level because the domain is finite and the kernel enumerates it completely; the generic theorems say what the table facts imply for any registry."),
+  technique="Lean 4: decide +kernel over regenerated whole tables + generic lemmas; exhaustive correspondence on the finite registry",
+  design="DESIGN.md section 7 C18"),
 }
 
 REASON_PENDING = "check not built yet (work in progress; DESIGN.md section 11 gives the build order)"
